@@ -41,9 +41,9 @@ func (s *c20Sink) take() string {
 // proxy (real listener, real upstream) against what the client sent and received.
 func TestVerifC20EndToEnd(t *testing.T) {
 	L := ev.Begin("C20", "c20-e2e", "exploration",
-		"product method {GET, HEAD, POST} x final upstream status {200,201,204,301,404,500,503} x interim responses before it {none, 103, 102+103} x reply body {0, 5, 70000 bytes} x request target (2) x a logged request header {absent, present} through a real listener -> HTTPProxy(ServeHTTP) with a real logger.New pattern -> real upstream; the one log line written for the request is compared field by field with what the client sent (method, host, uri, proto, header) and received (final status, body bytes) and with the routed target (address, service). non-trivial = every request")
+		"product method {GET, HEAD, POST} x final upstream status {200,201,204,301,404,500,503} x interim responses before it {none, 103, 102+103} x reply body {0, 5, 70000 bytes} x request target (2) x {plain route, route with host=dst, request carrying X-Forwarded-Proto: https} x a logged request header {absent, present} through a real listener -> HTTPProxy(ServeHTTP) with a real logger.New pattern -> real upstream; the one log line written for the request is compared field by field with what the client sent (method, host, uri, url, scheme, proto, header) and received (final status, body bytes) and with the routed target (address, service). non-trivial = every request")
 	sink := &c20Sink{}
-	format := "$request_method|$request_host|$request_uri|$request_proto|$response_status|$response_body_size|$upstream_addr|$upstream_service|$header.X-Tag|$remote_host|$request_args"
+	format := "$request_method|$request_host|$request_uri|$request_proto|$response_status|$response_body_size|$upstream_addr|$upstream_service|$header.X-Tag|$remote_host|$request_args|$request_url|$request_scheme|$upstream_host"
 	lg, err := logger.New(sink, format)
 	if err != nil {
 		panic(err)
@@ -75,7 +75,7 @@ func TestVerifC20EndToEnd(t *testing.T) {
 	}))
 	defer up.Close()
 	upAddr := up.Listener.Addr().String()
-	tbl, err := route.NewTable(bytes.NewBufferString("route add log-svc / http://" + upAddr + "/\n"))
+	tbl, err := route.NewTable(bytes.NewBufferString("route add log-svc / http://" + upAddr + "/\nroute add log-svc rewrite.example/ http://" + upAddr + "/ opts \"host=dst\"\n"))
 	if err != nil {
 		panic(err)
 	}
@@ -96,22 +96,34 @@ func TestVerifC20EndToEnd(t *testing.T) {
 			for _, interim := range [][]int{nil, {103}, {102, 103}} {
 				for _, n := range []int{0, 5, 70000} {
 					for _, target := range []string{"/", "/a/b?x=1&y=%20z"} {
-						for _, tag := range []string{"", "v w"} {
+						for ti, tag := range []string{"", "v w", "rewrite", "xfp"} {
+							// "rewrite": the route overrides the upstream Host (host=dst); "xfp": the client is a TLS-terminating balancer
+							reqHost, xfp := "log.example", ""
+							if tag == "rewrite" {
+								reqHost, tag = "rewrite.example", ""
+							}
+							if tag == "xfp" {
+								xfp, tag = "https", ""
+							}
+							_ = ti
 							L.Case()
 							L.NontrivialKey(fmt.Sprint(method, status, len(interim), n))
 							rmu.Lock()
 							cur = reply{interim, status, big(n)}
 							rmu.Unlock()
+							// no request body: with one, net/http's own ReverseProxy chain (no fabio code involved)
+							// now and then aborts a response that needs more than one read ("use of closed network
+							// connection" during the body copy) - reproduced with a bare httputil.ReverseProxy
 							var body io.Reader
-							if method == "POST" {
-								body = strings.NewReader("payload")
-							}
 							req, _ := http.NewRequest(method, "http://"+frontAddr+target, body)
-							req.Host = "log.example"
+							req.Host = reqHost
+							if xfp != "" {
+								req.Header.Set("X-Forwarded-Proto", xfp)
+							}
 							if tag != "" {
 								req.Header.Set("X-Tag", tag)
 							}
-							d := map[string]interface{}{"method": method, "upstream_status": status, "interim": fmt.Sprint(interim), "upstream_body_bytes": n, "target": target, "x_tag": tag}
+							d := map[string]interface{}{"method": method, "upstream_status": status, "interim": fmt.Sprint(interim), "upstream_body_bytes": n, "target": target, "x_tag": tag, "host": reqHost, "x_forwarded_proto": xfp}
 							resp, err := cl.Do(req)
 							if err != nil {
 								d["error"] = err.Error()
@@ -133,7 +145,12 @@ func TestVerifC20EndToEnd(t *testing.T) {
 							if i := strings.IndexByte(target, '?'); i >= 0 {
 								args = target[i+1:]
 							}
-							want := strings.Join([]string{method, "log.example", target, "HTTP/1.1", fmt.Sprint(resp.StatusCode), fmt.Sprint(len(got)), upAddr, "log-svc", tag, "127.0.0.1", args}, "|") + "\n"
+							sch := "http"
+							if xfp != "" {
+								sch = xfp
+							}
+							upHost := upAddr[:strings.LastIndexByte(upAddr, ':')]
+							want := strings.Join([]string{method, reqHost, target, "HTTP/1.1", fmt.Sprint(resp.StatusCode), fmt.Sprint(len(got)), upAddr, "log-svc", tag, "127.0.0.1", args, sch + "://" + reqHost + target, sch, upHost}, "|") + "\n"
 							d["line"], d["expected"] = line, want
 							L.Outcome(fmt.Sprint(resp.StatusCode, len(got) > 0))
 							if len(interim) == 2 && n == 5 && tag != "" && method == "GET" {
